@@ -12,7 +12,7 @@ from . import common as C  # noqa: E402
 
 def crate_source(g, entry_ctor="serde", extra_src=""):
     """Like tsgen.emit_crate_source but with `// @item` markers so rustc errors map to items."""
-    out = [tsgen.HEADER]
+    out = [tsgen.HEADER, tsgen.emit_aliases(g)]
     for it in g.items:
         out.append(f"// @item {it.id}")
         out.append(tsgen.emit_item(it))
